@@ -582,8 +582,12 @@ func (t *Task) lookup(s *State, name string) string {
 			v = t.lookup(b.havocFrom, name)
 		} else {
 			v = t.fresh(name+"@h", t.sortOfArray(name))
-			// private allocations of the pre-state keep their contents
+			// private allocations of the pre-state keep their contents across *foreign* code (an opaque call cannot reach
+			// them); a loop head is different: the loop body itself writes them
 			for _, p := range b.havocFrom.private {
+				if b.loopHavoc {
+					break
+				}
 				if strings.HasPrefix(name, p.prefix) && strings.HasPrefix(t.sortOfArray(name), "(Array Int") {
 					old := t.lookup(b.havocFrom, name)
 					t.asserts = append(t.asserts, sEq(sApp("select", v, p.ref), sApp("select", old, p.ref)))
